@@ -244,6 +244,19 @@ def run(out):
             raise common.MachineryError('spec self-test: deviation %s should violate %s, TLC says %r' % (d, expect[d], r.violated))
         out.add_tlc('selftest-deviation-' + d, r, violated_as_expected=r.violated)
 
+    # a caller may adjust its own Config object: the tables it holds are its own, not the library's
+    snap = _tables()
+    for cfg0 in ({}, {'type': 'stylesheet'}, {'syntax': 'pug'}):
+        c = emmet.Config(dict(cfg0))
+        c.options['output.indent'] = 'QQ'
+        c.options['x.custom'] = 1
+        c.variables['lang'] = 'zz'
+        c.snippets['zzqq'] = 'qq'
+        changed = _tables_same(snap)
+        if changed:
+            out.violation('history: library-table-modified', {'history': [['Config(%r)' % (cfg0,), 'the caller sets entries of .options / .variables / .snippets of its own Config object']],
+                                                              'observed': {'changed_table': list(changed)}})
+            break
     insts = [('histories-exhaustive', dict(constants={'MaxCalls': 2, 'Deviations': set()})),
              ('histories-simulated', dict(constants={'MaxCalls': 6 if quick else 10, 'Deviations': set()},
                                           simulate=3 if quick else 40, depth=40 if quick else 70, seed=out.seed))]
